@@ -19,7 +19,7 @@ class C10(Prop):
     id = "C10"
     rule = (
         "cases = a waiting step (num_workers 1..3) receiving 1-3 input events; each invocation optionally works, then performs 1-2 "
-        "sequential ctx.wait_for_event calls (type Reply/Reply2, optional requirement on the payload field 'key', unique waiter id per "
+        "sequential ctx.wait_for_event calls, optionally failing once or twice AFTER its waits were settled and being retried under a retry policy (type Reply/Reply2, optional requirement on the payload field 'key', unique waiter id per "
         "input and wait, timeout None/finite, optional waiter_event, timeout handled or re-raised), then completes; external responses "
         "are sent at generated virtual instants: matching, wrong type, subclass of the requested type, wrong key, duplicates at one "
         "instant and later, early (before the waiter exists) and late (after the timeout); optionally the context is serialized "
@@ -59,7 +59,8 @@ class C10(Prop):
                             "on_timeout": draw(st.sampled_from(["continue", "continue", "continue", "raise"])),
                         }
                     )
-                inputs.append({"key": draw(st.sampled_from(KEYS)), "pre": draw(st.sampled_from([0, 0, 1])), "post": draw(st.sampled_from([0, 0, 1, 2])), "waits": waits})
+                inputs.append({"key": draw(st.sampled_from(KEYS)), "pre": draw(st.sampled_from([0, 0, 1])), "post": draw(st.sampled_from([0, 0, 1, 2])), "waits": waits,
+                               "fail_after": draw(st.sampled_from([0, 0, 0, 1, 2]))})
             replies = []
             for _ in range(draw(st.integers(0, 6))):
                 replies.append(
@@ -73,6 +74,7 @@ class C10(Prop):
                 replies.append(list(draw(st.sampled_from(replies))))  # a duplicate at the same instant
             return {
                 "workers": draw(st.integers(1, 3)),
+                "retry_wait": draw(st.sampled_from([0, 0, 1])),
                 "inputs": inputs,
                 # derived (default) waiter ids: only where they are unique, i.e. one input whose waits differ in (type, requirement)
                 "derived_ids": n_in == 1 and len({(w["type"], w["req"]) for w in inputs[0]["waits"]}) == len(inputs[0]["waits"]) and draw(st.integers(0, 3)) == 0,
@@ -98,7 +100,8 @@ class C10(Prop):
         async def waiter(self, ctx, ev):
             i = ev.get("idx")
             inp = inputs[i]
-            ent = {"uid": ev.get("uid"), "idx": i, "seg": rec.segment, "t_in": VClock.t, "s_in": rec.nseq(), "waits": [], "exit": None, "t_out": None}
+            ri = ctx.retry_info()
+            ent = {"uid": ev.get("uid"), "idx": i, "seg": rec.segment, "attempt": ri.retry_number, "t_in": VClock.t, "s_in": rec.nseq(), "waits": [], "exit": None, "t_out": None}
             log["entries"].append(ent)
             try:
                 if inp["pre"]:
@@ -121,6 +124,9 @@ class C10(Prop):
                         raise
                     wrec["t"], wrec["res"] = VClock.t, "got"
                     wrec["got"] = {"uid": got.get("uid"), "type": type(got).__name__, "key": got.get("key")}
+                if ri.retry_number < inp.get("fail_after", 0):
+                    # the step fails AFTER its waits were settled and is retried: the retry must see the same settled waits
+                    raise ge.GenError(f"after-wait:{i}:{ri.retry_number}")
                 if inp["post"]:
                     await asyncio.sleep(inp["post"])
                 ent["exit"] = "returned"
@@ -154,7 +160,12 @@ class C10(Prop):
         U = typing.Union
         members = {
             "start": step(ann(start, "start", ge.GStart, U[ge.E1, N])),
-            "waiter": step(num_workers=case["workers"])(ann(waiter, "waiter", ge.E1, U[ge.E2, N])),
+            "waiter": step(
+                num_workers=case["workers"],
+                retry_policy=m["rp"].retry_policy(wait=m["rp"].wait_fixed(case.get("retry_wait", 0)), stop=m["rp"].stop_after_attempt(3))
+                if any(x.get("fail_after") for x in inputs)
+                else None,
+            )(ann(waiter, "waiter", ge.E1, U[ge.E2, N])),
             "after": step(ann(after, "after", ge.E2, U[ge.GStop, N])),
             "fin": step(ann(fin, "fin", ge.Fin, ge.GStop)),
         }
@@ -224,7 +235,11 @@ class C10(Prop):
                 comps = [e for e in es if e["exit"] == "returned"]
                 if len(comps) > 1:
                     r.v("step_completed_twice", resumed=resumed, life=seg, waits=len(inp["waits"]), req_wait_pending_at_snapshot=rp)
-                bound = 1 + len(inp["waits"]) if seg == 0 else 2 + 2 * len(inp["waits"])
+                fa = inp.get("fail_after", 0)
+                retried = any(x.get("fail_after") for x in case["inputs"])
+                # with a retry policy on the step an unhandled TimeoutError is retried too (up to 3 attempts)
+                extra = fa + (2 if retried and any(w["on_timeout"] == "raise" and w["timeout"] for w in inp["waits"]) else 0)
+                bound = 1 + len(inp["waits"]) + extra if seg == 0 else 2 + 2 * len(inp["waits"]) + 2 * extra
                 if len(es) > bound:
                     r.v("too_many_replays", resumed=resumed, life=seg, entries=len(es), bound=bound, req_wait_pending_at_snapshot=rp)
             c0 = [e for e in ents if e["seg"] == 0 and e["exit"] == "returned"]
@@ -329,6 +344,8 @@ class C10(Prop):
             r.classes.append("resume_with_pending_waiter")
         if any(len(i["waits"]) > 1 for i in case["inputs"]):
             r.classes.append("two_waits")
+        if any(e.get("attempt", 0) > 0 for e in log["entries"]):
+            r.classes.append("retried_after_wait")
         r.classes.append("outcome_" + kind)
         r.nontrivial = dup_matching or timeouts_fired > 0 or pending_at_resume
         r.sample = {"case": case, "entries": len(log["entries"]), "completed": len(log["done"]), "outcome": kind}
